@@ -124,7 +124,8 @@ fn closed_form_lm(p: &BTreeMap<String, String>, red: (f64, f64), lm: bool) -> Ex
         "biomass" => dsum * ratio("BIOMASA", red),
         "biomass+solar50" => 0.5 * dsum + 0.5 * dsum * ratio("BIOMASA", red),
         "biomass+dens_out" => 0.5 * dsum * ratio("BIOMASA", red) + 0.5 * dsum * ratio("BIOMASADENSIFICADA", red),
-        "gas+biomass_out" | "gas+biomass_out_heats" | "gas+biomass_out_2lines" => 0.5 * dsum * ratio("BIOMASA", red),
+        "gas+biomass_out" | "gas+biomass_out_heats" | "gas+biomass_out_2lines" | "gas+2biomass_out" => 0.5 * dsum * ratio("BIOMASA", red),
+        "gas+2dens_out+biomass_out" => 0.25 * dsum * ratio("BIOMASA", red) + 0.5 * dsum * ratio("BIOMASADENSIFICADA", red),
         "dens" => dsum * ratio("BIOMASADENSIFICADA", red),
         _ => return Expect::NoClosedForm,
     };
@@ -397,6 +398,15 @@ fn slots(d: &[f64], demand_kind: &'static str, rich: bool) -> Vec<Vec<Letter>> {
         // the same biomass boiler written in two consumption lines (winter / summer) sharing one declared output
         m("gas+biomass_out_2lines", vec![u(Some(1), "ACS", "BIOMASA", &cv(&sc(0.375))), u(Some(1), "ACS", "BIOMASA", &cv(&sc(0.25))), o(1, "ACS", &cv(&sc(0.5))), u(Some(2), "ACS", "GASNATURAL", &cv(&sc(0.5)))]),
         m("gas+biomass_out", vec![u(Some(1), "ACS", "BIOMASA", &cv(&sc(0.625))), o(1, "ACS", &cv(&sc(0.5))), u(Some(2), "ACS", "GASNATURAL", &cv(&sc(0.5)))]),
+        // two biomass boilers, each with its own declared output, beside gas; two pellet boilers and one log boiler beside gas
+        m("gas+2biomass_out", vec![u(Some(1), "ACS", "BIOMASA", &cv(&sc(0.3125))), o(1, "ACS", &cv(&sc(0.25))), u(Some(3), "ACS", "BIOMASA", &cv(&sc(0.3125))), o(3, "ACS", &cv(&sc(0.25))), u(Some(2), "ACS", "GASNATURAL", &cv(&sc(0.5)))]),
+        m(
+            "gas+2dens_out+biomass_out",
+            vec![
+                u(Some(1), "ACS", "BIOMASADENSIFICADA", &cv(&sc(0.3125))), o(1, "ACS", &cv(&sc(0.25))), u(Some(3), "ACS", "BIOMASADENSIFICADA", &cv(&sc(0.3125))), o(3, "ACS", &cv(&sc(0.25))),
+                u(Some(4), "ACS", "BIOMASA", &cv(&sc(0.3125))), o(4, "ACS", &cv(&sc(0.25))), u(Some(2), "ACS", "GASNATURAL", &cv(&sc(0.25))),
+            ],
+        ),
         m(
             "gas+biomass_out_heats",
             vec![u(Some(1), "ACS", "BIOMASA", &cv(&sc(0.625))), o(1, "ACS", &cv(&sc(0.5))), u(Some(1), "CAL", "BIOMASA", &cv(&sc(2.0))), o(1, "CAL", &cv(&sc(1.5))), u(Some(2), "ACS", "GASNATURAL", &cv(&sc(0.5))), o(2, "ACS", &cv(&sc(0.5)))],
